@@ -1,4 +1,9 @@
-"""C10 — flows are independent except for global variables and counts."""
+"""C10 — flows are independent except for global variables and counts.
+
+Strengthened three times against seeded changes: temporaries + remove-current detours (C10), the rewind family
+(C10b), and (C10c) glue at the START of a line — the look-ahead newline of a continue is taken back
+(OutputStateChange::NewlineRemoved, the snapshot is discarded instead of restored) while other flows are parked —
+in every part, in the root content the third flow runs, and the "switching back restores the flow's view" oracle."""
 import itertools, json, re
 import vlib, engine
 from props import hist
@@ -22,38 +27,62 @@ ASSUMPTIONS = [
     "different parked flows than the save, then LOAD (same object) vs LOADNEW (fresh object) vs never saved, "
     "followed by SHOWSAVE, a switch to every flow name that exists anywhere + CONT, the remaining ops, SHOWSAVE; "
     "the three tails must be equal; the LOAD variants also run through the save-aware model (engine_save)",
+    "look-ahead family: glue is generated at the END of a line (newline never written) and at the START of the next "
+    "line (newline written, look-ahead snapshot taken, newline taken back: the snapshot is DISCARDED, not restored) "
+    "— in the knots, tunnels, choice bodies and a function of every part and in the root content that the third "
+    "flow runs (detours third-ran / remove-current-ran / rewind), so a continue of any flow discards a look-ahead "
+    "snapshot while other flows are parked",
+    "switch-back oracle: every switch back to a flow (and one final switch to every flow that still exists) must "
+    "show the view (can_continue, current text, tags, choices) the flow was left with",
 ]
 
 WORDS = ["amber", "brook", "cedar", "delta", "ember", "fjord", "grove", "haven"]
 
 
-def gen_part(rng, px, temps=True):
+GLUE_STYLES = ["none", "trailing", "leading", "leading", "mixed", "mixed"]
+
+
+def gen_part(rng, px, temps=True, glue_style=None):
     """a self-contained part: own globals, knots, a tunnel, glue lines, sticky/once-only choices and (temps=True)
     temporary variables that are declared before a pause (end of line / choice point) and read or re-assigned
-    after it, in the knot, in the tunnel (one frame deeper) and inside a function call"""
+    after it, in the knot, in the tunnel (one frame deeper) and inside a function call.
+    glue_style: where glue goes — "trailing" (end of a line: the newline is never written), "leading" (start of the
+    NEXT line: the newline was written, a look-ahead snapshot taken, and the newline is then taken back, so the
+    snapshot is discarded rather than restored), "mixed" (both kinds, drawn per site), "none"; None: drawn.
+    Leading glue sites: the second line of the knot, the line after the tunnel returns, the first line of the
+    tunnel / after its `enter` line, inside a choice body, the first line of the knot when re-entered from a choice
+    body, the end knot, and a line printed by a function called on a line of its own."""
     w = lambda: rng.choice(WORDS)
     tv = f"{px}t"
     rd = lambda p=0.7: (f" {{{tv}}}" if temps and rng.random() < p else "")
+    gs = rng.choice(GLUE_STYLES) if glue_style is None else glue_style
+    p_trail = dict(none=0.0, trailing=0.6, leading=0.0, mixed=0.35)[gs]
+    p_lead = dict(none=0.0, trailing=0.0, leading=0.6, mixed=0.4)[gs]
+    tg = lambda: (" <>" if rng.random() < p_trail else "")           # glue at the end of a line
+    lg = lambda p=1.0: ("<> " if rng.random() < p_lead * p else "")    # glue at the start of a line
     lines = []
-    glue = " <>" if rng.random() < 0.6 else ""
     lines += [f"=== {px}start ==="]
     if temps:
         lines += [f"~ temp {tv} = {rng.randint(3, 9)}"]
-    lines += [f"{px} {w()} {{{px}n}}{glue}",
-              f"{w()} line{rd(0.8)}",
+    lines += [f"{lg(0.4)}{px} {w()} {{{px}n}}{tg()}",
+              f"{lg()}{w()} line{rd(0.8)}",
               f"~ {px}n = {px}n + 1"]
     if temps and rng.random() < 0.5:
         lines += [f"~ {tv} = {tv} + {px}n"]
     if rng.random() < 0.6:
         lines += [f"-> {px}tun ->"]
         if temps and rng.random() < 0.6:
-            lines += [f"back {w()}{rd(1.0)}"]
+            lines += [f"{lg()}back {w()}{rd(1.0)}"]
+    if p_lead and rng.random() < 0.4:
+        lines += [f"~ {px}say({px}n)"]
     if rng.random() < 0.4:
         lines += [f"<- {px}side"]
-    lines += [f"* [{px} once {w()}] took once {{{px}n}}{rd()}",
+    lines += [f"* [{px} once {w()}] took once {{{px}n}}{rd()}{tg()}",
               f"  ~ {px}flag = true"]
     if temps and rng.random() < 0.4:
-        lines += [f"  ~ {tv} = {tv} * 2", f"  then {w()} {{{tv}}}"]
+        lines += [f"  ~ {tv} = {tv} * 2", f"  {lg()}then {w()} {{{tv}}}"]
+    elif p_lead and rng.random() < 0.4:
+        lines += [f"  {lg()}then {w()} {{{px}n}}"]
     lines += [f"  -> {px}start",
               f"+ [{px} sticky {w()}] sticky {{{px}start}}{rd()}",
               f"  -> {px}start",
@@ -62,36 +91,45 @@ def gen_part(rng, px, temps=True):
     if temps:
         lines += [f"~ temp {px}u = {px}n + {rng.randint(1, 4)}"]
         if rng.random() < 0.5:
-            lines += [f"enter {w()}"]
-    lines += [f"tunnel {w()} {{&one|two|three}}" + (f" {{{px}u}}" if temps else ""),
+            lines += [f"{lg(0.5)}enter {w()}{tg()}"]
+    lines += [f"{lg()}tunnel {w()} {{&one|two|three}}" + (f" {{{px}u}}" if temps else ""),
               f"~ {px}n = {px}n * 2"]
     if temps and rng.random() < 0.4:
-        lines += [f"leave {w()} {{{px}f({px}u)}}"]
+        lines += [f"{lg()}leave {w()} {{{px}f({px}u)}}"]
     lines += ["->->",
               f"=== {px}side ===",
               f"side {w()}",
               f"+ [{px} from side] -> {px}end",
               "-> DONE",
               f"=== {px}end ===",
-              f"{px} done {{{px}flag}} {{{px}n}}",
+              f"{lg(0.5)}{px} done {{{px}flag}} {{{px}n}}",
               "-> END"]
     if temps:
         lines += [f"=== function {px}f(x) ===",
                   f"~ temp y = x + 1",
                   f"~ return y * 2"]
+    lines += [f"=== function {px}say(x) ===",
+              f"<> said {{x}}"]
     decls = [f"VAR {px}n = {rng.randint(0, 3)}", f"VAR {px}flag = false"]
     return decls, lines
 
 
-def gen_program(rng, nparts, temps=None):
-    """temps: per-part switch (None: drawn per part, mostly on)"""
+def gen_program(rng, nparts, temps=None, glue_style=None):
+    """temps: per-part switch (None: drawn per part, mostly on); glue_style: see gen_part (None: drawn per part, and
+    drawn for the root content)"""
     decls, body = [], []
     for i in range(nparts):
         t = (rng.random() < 0.8) if temps is None else temps
-        d, b = gen_part(rng, "abc"[i] + "_", temps=t)
+        d, b = gen_part(rng, "abc"[i] + "_", temps=t, glue_style=glue_style)
         decls += d; body += b
-    # the root is what a freshly created flow runs (used by the "third flow" detours)
-    return "\n".join(decls + ["~ temp r = 1", "Main line {r}.", "Second main {r}.", "-> DONE"] + body) + "\n"
+    # the root is what a freshly created flow runs (used by the "third flow" detours); its second line may start
+    # with glue, so that a CONT of the third flow discards its look-ahead snapshot while the parts' flows are parked
+    gs = rng.choice(GLUE_STYLES) if glue_style is None else glue_style
+    root = ["~ temp r = 1", "Main line {r}."]
+    if gs in ("leading", "mixed"):
+        root += ["<> glued on {r}."]
+    root += ["Second main {r}." + (" <>" if gs in ("trailing", "mixed") else ""), "Third main.", "-> DONE"]
+    return "\n".join(decls + root + body) + "\n"
 
 
 def interleavings(a, b, limit, rng):
@@ -129,7 +167,7 @@ def flow_lines(res_lines, tags):
 
 
 EXTRA_KINDS = ["save", "remove-third", "switch-back", "remove-current", "remove-current", "remove-current-ran",
-               "rewind"]
+               "rewind", "third-ran"]
 
 
 def sw_op(name):
@@ -139,17 +177,22 @@ def sw_op(name):
 
 def build_interleaved(rng, il, names, extras_at, remove_finished):
     """il: [(part, op)], names: {part: flow name or None (= the default flow)}; extras_at: {position: kind}.
-    Returns (script, tags, lastx): tags[i] = part whose op produced transcript line i (None: scaffolding),
-    lastx[i] = kind of the most recent scaffolding detour before line i (for the class key)."""
-    script, tags, lastx = [], [None], [None]          # line 0 is NEW
+    Returns (script, tags, lastx, viewref): tags[i] = part whose op produced transcript line i (None: scaffolding),
+    lastx[i] = kind of the most recent scaffolding detour before line i (for the class key), viewref[i] = index of
+    the earlier transcript line whose view (can_continue, current text, tags, choices) line i must show again: line
+    i is a switch back to a flow and the referenced line is the last operation that flow performed (switching away
+    and back is a no-op).  After the last op every flow that still exists is switched to once more."""
+    script, tags, lastx, viewref = [], [None], [None], [None]          # line 0 is NEW
     cur, lx = None, None                              # a new story is in its default flow
-    remaining = {}
+    remaining, last_own, removed = {}, {}, set()
     for who, _ in il:
         remaining[who] = remaining.get(who, 0) + 1
 
-    def emit(ops, tag=None):
+    def emit(ops, tag=None, ref=None):
         for o in ops:
-            script.append(o); tags.append(tag); lastx.append(lx)
+            script.append(o); tags.append(tag); lastx.append(lx); viewref.append(ref)
+            if tag is not None:
+                last_own[tag] = len(tags) - 1
 
     for pos, (who, op) in enumerate(il):
         nf = names[who]
@@ -165,6 +208,8 @@ def build_interleaved(rng, il, names, extras_at, remove_finished):
             lx = kind; emit([["SWITCH", "Fz"], ["REMOVE_FLOW", "Fz"]]); cur = None
         elif kind == "remove-current-ran":      # same, after the third flow produced a line of the root content
             lx = kind; emit([["SWITCH", "Fz"], ["CONT"], ["REMOVE_FLOW", "Fz"]]); cur = None
+        elif kind == "third-ran":               # a third flow produces one line of the root content and stays parked
+            lx = kind; emit([["SWITCH", "Fz"], ["CONT"]]); cur = "Fz"
         elif kind == "rewind":
             # the host saves, plays on (the next ops of the interleaving — possibly creating a flow the save does not
             # have — and/or a third flow that runs a line), parks whatever became current and rewinds by loading the
@@ -181,13 +226,24 @@ def build_interleaved(rng, il, names, extras_at, remove_finished):
                 emit([sw_op(rng.choice(sorted(names.values(), key=str)))])
             emit([["LOAD", "s"]])
         if cur != nf:
-            emit([sw_op(nf)]); cur = nf
+            emit([sw_op(nf)], ref=last_own.get(who)); cur = nf
         emit([op], who)
         remaining[who] -= 1
         if remaining[who] == 0 and nf is not None and who in remove_finished and pos + 1 < len(il):
             # the host is done with a named flow and removes it while it is still the current one
-            lx = "remove-finished-current"; emit([["REMOVE_FLOW", nf]]); cur = None
-    return script, tags, lastx
+            lx = "remove-finished-current"; emit([["REMOVE_FLOW", nf]]); cur = None; removed.add(who)
+    # finally every flow that still exists is made current once more and must show the view it was left with
+    lx = None
+    for who in sorted(last_own):
+        if who not in removed:
+            emit([sw_op(names[who])], ref=last_own[who])
+    return script, tags, lastx, viewref
+
+
+def flow_view(line):
+    """what a host sees of the current flow: can_continue, current text, current tags, choices (the error and warning
+    counts and the events are story-wide)"""
+    return re.sub(r" nerr=\d+ nwarn=\d+ ev=\[.*\]$", "", hist.split_line(line)[2])
 
 
 def diff_window(got, ref, before=120, after=400):
@@ -376,6 +432,40 @@ other
 """, {"a": None, "b": "Fb"},
      [("a", ["PATH", "a_start", True]), ("a", ["CONT"]), ("b", ["PATH", "b_start", True]), ("a", ["CHOOSE", 0]),
       ("b", ["CONT"]), ("a", ["CONT"]), ("a", ["CONT"])], {3: "remove-current", 5: "remove-current-ran"}, {"b"}),
+    # the look-ahead newline of a continue is taken back by glue at the start of the next line (the snapshot is
+    # discarded, not restored) while another named flow and the default flow are parked; both must survive
+    ("""Main line.
+Second main.
+-> DONE
+=== a_start ===
+a1
+a2
+a3
+-> END
+=== b_start ===
+b1
+<> glued on
+b2
+-> END
+""", {"a": "Fa", "b": "Fb"},
+     [("a", ["PATH", "a_start", True]), ("a", ["CONT"]), ("b", ["PATH", "b_start", True]), ("b", ["CONT"]),
+      ("a", ["CONT"]), ("b", ["CONT"]), ("a", ["CONT"])], {0: "third-ran"}, set()),
+    # the same in the third flow (root content) while a part lives in the default flow
+    ("""Main line.
+<> glued on
+Second main.
+-> DONE
+=== a_start ===
+a1
+a2
+-> END
+=== b_start ===
+b1
+b2
+-> END
+""", {"a": None, "b": "Fb"},
+     [("a", ["PATH", "a_start", True]), ("a", ["CONT"]), ("b", ["PATH", "b_start", True]), ("b", ["CONT"]),
+      ("a", ["CONT"]), ("b", ["CONT"])], {4: "remove-current-ran"}, set()),
 ]
 
 
@@ -398,10 +488,10 @@ def run(ctx):
         for part, name in names.items():
             c, m = solo_case(f"{pid}|solo{part}", src, part, name, [op for w_, op in il if w_ == part])
             cases.append(c); meta[c["id"]] = m
-        script, tags, lastx = build_interleaved(ctx.rng, il, names, extras_at, remfin)
+        script, tags, lastx, viewref = build_interleaved(ctx.rng, il, names, extras_at, remfin)
         cid = f"{pid}|il1"
         cases.append(dict(id=cid, ink=src, seed=42, fuel=30000, script=script))
-        meta[cid] = dict(kind="il", n=pid, tags=tags, lastx=lastx, flows=list(names))
+        meta[cid] = dict(kind="il", n=pid, tags=tags, lastx=lastx, viewref=viewref, flows=list(names))
     rw_groups, rw_rel = {}, {}
 
     def add_rewind(gid, src, il, names, i, fixed=None):
@@ -448,12 +538,12 @@ def run(ctx):
             nx = ctx.rng.choice([0, 1, 1, 2, 2, 3])
             extras_at = {p: ctx.rng.choice(EXTRA_KINDS) for p in ctx.rng.sample(range(len(il)), min(nx, len(il)))}
             remfin = {f for f in (fa, fb) if ctx.rng.random() < 0.3}
-            script, tags, lastx = build_interleaved(ctx.rng, il, names, extras_at, remfin)
+            script, tags, lastx, viewref = build_interleaved(ctx.rng, il, names, extras_at, remfin)
             for x in set(lastx):
                 kinds_used[str(x)] = kinds_used.get(str(x), 0) + 1
             cid = f"{pid}|il{k}"
             cases.append(dict(id=cid, ink=src, seed=42, fuel=30000, script=script))
-            meta[cid] = dict(kind="il", n=pid, tags=tags, lastx=lastx, flows=[fa, fb], default=dflt)
+            meta[cid] = dict(kind="il", n=pid, tags=tags, lastx=lastx, viewref=viewref, flows=[fa, fb], default=dflt)
         # rewind family: save at a random point of a random interleaving, diverge, load into the same / a fresh story
         for k in range((12 if ctx.quick() else 30) if il_list else 0):
             il = ctx.rng.choice(il_list)
@@ -461,7 +551,7 @@ def run(ctx):
             nm = names if ctx.rng.random() < 0.5 else {f: "F" + f for f in names}
             add_rewind(f"{pid}|rw{k}", src, il, nm, ctx.rng.randint(0, len(il)))
     res = {r["id"]: r for r in vlib.run_inkdrive(cases, exe)}
-    fails, n_checked = [], 0
+    fails, n_checked, n_views = [], 0, [0]
     for cid, m in meta.items():
         if m["kind"] != "il":
             continue
@@ -486,6 +576,17 @@ def run(ctx):
                 at = idx[d] if d < len(idx) else len(m["tags"])
                 if first is None or at < first[0]:
                     first = (at, f, want[d] if d < len(want) else None, have[d] if d < len(have) else None)
+        # switching back to a flow shows the view (can_continue, text, tags, choices) the flow was left with
+        for i, ref in enumerate(m.get("viewref") or []):
+            if ref is None or i >= len(r["lines"]) or (first is not None and first[0] <= i):
+                continue
+            n_views[0] += 1
+            if flow_view(r["lines"][i]) != flow_view(r["lines"][ref]):
+                lx = m["lastx"][i]
+                fails.append(dict(key="switch-back-changes-flow-view" + (":after-" + lx if lx else ""), case=case,
+                                  flow=m["tags"][ref], script_line=i, left_at_line=ref,
+                                  view_when_left=flow_view(r["lines"][ref]), view_on_return=flow_view(r["lines"][i])))
+                break
         if first is not None:
             at, f, alone, inter = first
             # class: the scaffolding detour that most recently preceded the first disturbed line
@@ -546,18 +647,21 @@ def run(ctx):
     agree = sum(1 for r in cres if r["status"] == "agree")
     ctx.coverage.update(dict(
         evaluations=len(cases), distinct_nontrivial=n_checked,
-        rule="programs of 2-3 mutually disjoint parts (own globals, knots, tunnel, thread, glue, sticky/once-only "
+        rule="programs of 2-3 mutually disjoint parts (own globals, knots, tunnel, thread, glue at the end of a line "
+             "and/or at the start of the next one (look-ahead newline taken back) per part and in the root content, "
+             "sticky/once-only "
              "choices, temporaries declared before a pause and read/re-assigned after it in knot, tunnel and function "
              "frames), one flow per part, one part possibly in the DEFAULT flow; all interleavings of the two flows' "
              "operations (exhaustive when <= the limit, else sampled), with 0-3 detours at random points: SAVE+LOADNEW "
              "/ a third flow created and removed while not current / created and removed WHILE CURRENT (with or "
              "without having run) / a detour through another flow and back, and a finished named flow removed while "
-             "current; each flow's transcript (text, choices, error and warning counts) compared with its solo "
-             "transcript; plus fixed regression scripts; REWIND family: SAVE at a random point of an interleaving, a "
+             "current / a third flow that runs a line and stays parked; each flow's transcript (text, choices, error "
+             "and warning counts) compared with its solo transcript; every switch back to a flow (and a final switch "
+             "to each surviving flow) must show the view the flow was left with; plus fixed regression scripts; REWIND family: SAVE at a random point of an interleaving, a "
              "divergence (play on / third flow / new flow / REMOVE_FLOW / default flow, then park), LOAD into the SAME "
              "story vs LOADNEW vs never saved, then SHOWSAVE, switch to every flow name (parts, Fz, Fy, default) and "
              "continue it, the remaining ops, SHOWSAVE: the three tails compared line by line (and with the model)",
-        detours_used=kinds_used, rewind_groups_checked=n_rw, rewind_live_vs_saved_flows=rw_rel,
+        detours_used=kinds_used, switch_back_views_compared=n_views[0], rewind_groups_checked=n_rw, rewind_live_vs_saved_flows=rw_rel,
         samples=[cases[-1]["script"] if cases else []],
         traces_validated_against_impl=agree, correspondence_mismatches=len(mism), programs=nprog))
     seen = set()
